@@ -224,7 +224,7 @@ def r17a(ctx):
     good = False
     for loop in (n for n in ast.walk(ly) if isinstance(n, ast.For)):
         it = ldefs.expand(loop.iter, at=loop)
-        if not (isinstance(it, ast.Call) and dotted(it.func) == "enumerate" and it.args and ast.unparse(it.args[0]) == "self.operand('keys')"):
+        if not (isinstance(it, ast.Call) and dotted(it.func) == "enumerate" and it.args and ast.unparse(it.args[0]) in ("self.operand('keys')", "self.keys")):
             continue
         if not (isinstance(loop.target, ast.Tuple) and len(loop.target.elts) == 2 and all(isinstance(e, ast.Name) for e in loop.target.elts)):
             continue
